@@ -168,6 +168,14 @@ static void run_ps(const Case& c) {
         else if (op == "v0") ps->variance(0);
         else if (op == "v1") ps->variance(1);
         else if (op == "c") { std::unique_ptr<PhaseSpace> cp(new PhaseSpace(*ps)); ps = std::move(cp); }
+        else if (op == "D") {
+            // the grid is written from outside (as every source map does through getData()): every bunch moves by one
+            // column, data'[b][x][y] = data[b][(x+1)%n][y]; no cached member is refreshed
+            float* d = ps->getData();
+            std::vector<float> old(d, d + static_cast<size_t>(n) * n * nb);
+            for (uint32_t b = 0; b < nb; b++) for (uint32_t x = 0; x < n; x++) for (uint32_t y = 0; y < n; y++)
+                d[(static_cast<size_t>(b) * n + x) * n + y] = old[(static_cast<size_t>(b) * n + (x + 1) % n) * n + y];
+        }
         else if (op == "p") ps_print(*ps, n, nb);
     }
 }
